@@ -320,13 +320,33 @@ int main(int argc, char** argv) {
             gen.setPartner(GGeom{}, 0); out.count("A_mixed_collection"); }
         gen.setPartner(A, r.chance(80) ? 55 : 0);
         GGeom B = gen.geom(r.chance(55) ? 2 : 3, false, false);
-        DX t; bool tieFocus = r.chance(15);
+        // several long lattice walks (more than 20 vertices each: OverlayNG limits such lines to the clip envelope before noding, with ONE limiter
+        // object for all lines of the operand) wandering in and out of the neighbourhood of a small rectangle
+        bool longLines = !coll && r.chance(14);
+        if (longLines) {
+            long U = r.range(9, 14); long wx0 = r.range(2, (int) U - 5), wy0 = r.range(2, (int) U - 5), wx1 = wx0 + r.range(2, 3), wy1 = wy0 + r.range(2, 3);
+            auto walk = [&](int nv) { std::vector<IPt> ps; IPt p{r.range(0, (int) U), r.range(0, (int) U)}; ps.push_back(p); long step = r.chance(50) ? 2 : (r.chance(50) ? 4 : 1);
+                while ((int) ps.size() < nv) { IPt q; int tries = 0;
+                    do { q = IPt{p.x + r.range((int) -step, (int) step), p.y + r.range((int) -step, (int) step)}; q.x = std::max(0L, std::min(U, q.x)); q.y = std::max(0L, std::min(U, q.y)); } while (q == p && ++tries < 8);
+                    if (q == p) q = IPt{p.x == U ? p.x - 1 : p.x + 1, p.y};
+                    ps.push_back(q); p = q; }
+                return ps; };
+            A = GGeom{}; A.container = 1; int nl = r.chance(75) ? 2 : 3;
+            for (int q = 0; q < nl; q++) { GElem e; e.kind = 1; std::vector<IPt> w = walk(r.range(21, 24));
+                // mostly: the line ends with two or three vertices far from the rectangle (a corner region of the universe), on varying sides
+                if (r.chance(65)) { long cx = r.chance(50) ? 0 : U, cy = r.chance(50) ? 0 : U; int tail = r.range(2, 3);
+                    for (int i = 0; i < tail; i++) { IPt qd{cx == 0 ? (long) r.range(0, 1) : U - r.range(0, 1), cy == 0 ? (long) r.range(0, 1) : U - r.range(0, 1)}; if (!(qd == w.back())) w.push_back(qd); } }
+                e.rings.push_back(w); A.elems.push_back(e); }
+            B = GGeom{}; { GElem e; e.kind = 2; e.rings.push_back({{wx0, wy0}, {wx1, wy0}, {wx1, wy1}, {wx0, wy1}, {wx0, wy0}}); B.elems.push_back(e); }
+            if (r.chance(40)) std::swap(A, B);
+            out.count("A_long_lines_small_area"); }
+        DX t; bool tieFocus = !longLines && r.chance(15);
         if (tieFocus) {   // axis-parallel map with a scale that is not a power of two, grid = 2 or 4 lattice units: odd lattice
                           // points sit on rounding ties k + 1/2 which binary64 sees as 0.49999999999999994 / 0.5 / 0.5000000000000001
             double mag = std::pow(10.0, r.range(-3, 9) + r.unit()); t.a = mag; t.d = mag; t.b = 0; t.c = 0;
             t.tx = r.chance(50) ? 0.0 : mag * (double) r.range(-50, 50); t.ty = r.chance(50) ? 0.0 : mag * (double) r.range(-50, 50);
             out.count("map_tie_focus"); }
-        else if (r.chance(45)) { t.exact = true; t.xf = gen.xform(); out.count("map_exact_lattice"); }
+        else if (longLines || r.chance(45)) { t.exact = true; t.xf = gen.xform(); out.count("map_exact_lattice"); }
         else { double mag = std::pow(10.0, r.range(-3, 9) + r.unit()); double th = r.chance(25) ? 0.0 : r.unit() * 6.283185307179586;
             double shear = r.chance(15) ? (r.unit() - 0.5) : 0.0;
             t.a = mag * std::cos(th); t.b = -mag * std::sin(th) + shear * mag; t.c = mag * std::sin(th); t.d = mag * std::cos(th);
@@ -334,7 +354,7 @@ int main(int argc, char** argv) {
             double off = r.chance(30) ? 0.0 : std::pow(10.0, r.range(-3, 9)); t.tx = off * (r.unit() - 0.5) * 2; t.ty = off * (r.unit() - 0.5) * 2;
             out.count("map_double_similarity"); }
         std::string ta = geomTokD(A, t), tb = geomTokD(B, t);
-        bool tiny = !coll && !tieFocus && r.chance(18); double gTiny = 0;
+        bool tiny = !coll && !tieFocus && !longLines && r.chance(18); double gTiny = 0;
         if (tiny) {      // sub-cell partner: B (or A) becomes a tiny polygon at a feature point of the other operand; exact lattice map
             t = DX{}; t.exact = true; t.xf = gen.xform(); bool swapRoles = r.chance(35);
             const GGeom& big = swapRoles ? B : A; IPt an = pickAnchor(r, out, gen, big); double ax, ay; t.apply(an, ax, ay);
@@ -353,6 +373,7 @@ int main(int argc, char** argv) {
         double g; int gm = (int) r.below(100);
         if (tiny) { g = gTiny; out.count("grid_subcell_partner"); }
         else if (tieFocus) { g = unit * (r.chance(60) ? 2.0 : 4.0); out.count("grid_tie_focus"); }
+        else if (longLines) { static const double f[] = {1, 1, 0.5, 0.25, 2}; g = unit * f[r.below(5)]; out.count("grid_long_lines"); }
         else if (gm < 30) { g = std::pow(10.0, -6.0 + 9.0 * r.unit()) * ext; out.count("grid_random_1e-6..1e3_x_extent"); }
         else if (gm < 45) { int k = (int) std::floor(std::log10(ext)) + r.range(-6, 3); g = std::pow(10.0, k); out.count("grid_power_of_ten"); }
         else if (gm < 55) { int k = (int) std::floor(std::log2(ext)) + r.range(-20, 10); g = std::ldexp(1.0, k); out.count("grid_power_of_two"); }
